@@ -5,10 +5,18 @@
     The inner linear solve of [AR::fit] (the crate's [invert_matrix], property C01) is the
     parameter [inv] of the model.  Theorems that need it to be correct take
     [forall n A Ai, length A = n*n -> inv A = Some Ai -> right_inverse n A Ai]
-    as an explicit hypothesis, to be discharged by C01's theorem. *)
+    as an explicit hypothesis, to be discharged by C01's theorem.
+
+    COMPOSED WITH C01 (last section, theorems [C13_..._composed]; proofs in Proofs/C13_compose.v): [inv] is
+    instantiated by C01's model of [invert_matrix] ([slice_invert], Model/SolveInst.v) and that hypothesis
+    is discharged from C01's theorems.  Those theorems assume nothing about the inner solve; what remains
+    is a condition on the data alone: the p x p Toeplitz matrix of the autocorrelations has a left inverse
+    ([Spec.Solve.nonsingular]; implied by positive definiteness; for p = 1, 2 by a nonzero variance). *)
 From Coq Require Import Reals List Arith ZArith Bool.
-From Compute Require Import Base.Ops Base.ListMat Model.Reduce Model.MatMul Model.TimeSeries
-  Spec.TimeSeries Proofs.C13_base Proofs.C13_acf Proofs.C13_ar Proofs.C13_conv Proofs.C13_ar1 Proofs.C13_total Proofs.C13_examples.
+From Compute Require Import Base.Ops Base.ListMat Model.Reduce Model.MatMul Model.TimeSeries Model.SolveInst
+  Spec.TimeSeries Proofs.C13_base Proofs.C13_acf Proofs.C13_ar Proofs.C13_conv Proofs.C13_ar1 Proofs.C13_total Proofs.C13_examples
+  Proofs.C13_compose.
+From Compute Require Spec.Factor Spec.Solve.
 Import ListNotations.
 Local Open Scope R_scope.
 
@@ -246,3 +254,71 @@ Theorem C13_fit_total :
     ((0 < p)%nat -> inv (fit_inv_arg O p data) = Some rinv -> length rinv = (p * p)%nat ->
      exists c, ar_new_fit O inv p data = Some (c, ts_mean O data) /\ length c = p).
 Proof. intros T O inv p data rinv. split; [apply fit_inv_arg_length_any | apply fit_total]. Qed.
+
+(** ** composed with C01: the inner solve is C01's model of [invert_matrix], nothing is assumed about it.
+    [Spec.Solve.nonsingular a p] : exists c, c.a = I  ([Spec.Factor.mmul c a p i j = delta i j] for i, j < p). *)
+
+(** the matrix handed to [invert_matrix] is exactly symmetric (so both routes of C01 are covered) *)
+Theorem C13_fit_inner_argument_symmetric :
+  forall (p : nat) (data : list R) (i j : nat),
+    (i < p)%nat -> (j < p)%nat ->
+    nth (i * p + j) (fit_inv_arg RO p data) 0 = nth (j * p + i) (fit_inv_arg RO p data) 0.
+Proof. exact fit_inv_arg_symmetric. Qed.
+
+(** at that matrix, when it is nonsingular, C01's [invert_matrix] returns, and returns the inverse *)
+Theorem C13_inner_solve_correct_composed :
+  forall (p : nat) (data : list R),
+    (0 < p)%nat -> Spec.Solve.nonsingular (fit_inv_arg RO p data) p ->
+    exists Ai, slice_invert RO (fit_inv_arg RO p data) = Some Ai /\ right_inverse p (fit_inv_arg RO p data) Ai.
+Proof. exact invert_at_arg. Qed.
+
+(** a returned fit solves the Yule-Walker equations *)
+Theorem C13_fit_solves_yule_walker_composed :
+  forall (p : nat) (data coeffs : list R) (mu : R),
+    Spec.Solve.nonsingular (fit_inv_arg RO p data) p ->
+    ar_new_fit RO (slice_invert RO) p data = Some (coeffs, mu) ->
+    yule_walker (fun t => acorr data (Z.of_nat t)) p (rev coeffs) /\ mu = smean data.
+Proof. exact fit_solves_yule_walker_composed. Qed.
+
+(** the headline: positive order and a nonsingular Toeplitz matrix of autocorrelations  =>
+    [AR::new(p).fit] (mean, autocorrelations, Toeplitz matrix, C01's [invert_matrix], product) RETURNS p
+    coefficients which, read backwards, are THE solution of the Yule-Walker equations; intercept = mean *)
+Theorem C13_fit_total_composed :
+  forall (p : nat) (data : list R),
+    (0 < p)%nat -> Spec.Solve.nonsingular (fit_inv_arg RO p data) p ->
+    exists coeffs, ar_new_fit RO (slice_invert RO) p data = Some (coeffs, smean data) /\ length coeffs = p /\
+      yule_walker (fun t => acorr data (Z.of_nat t)) p (rev coeffs) /\
+      forall phi, yule_walker (fun t => acorr data (Z.of_nat t)) p phi -> phi = rev coeffs.
+Proof. exact fit_total_composed. Qed.
+
+(** the data condition: implied by positive definiteness of the Toeplitz matrix ... *)
+Theorem C13_toeplitz_positive_definite_suffices :
+  forall (p : nat) (data : list R),
+    (0 < p)%nat ->
+    (forall x : nat -> R, (exists i, (i < p)%nat /\ x i <> 0) ->
+       0 < Spec.Factor.rsum (fun a => Spec.Factor.rsum (fun b => x a * Spec.Factor.getm (fit_inv_arg RO p data) p a b * x b) p) p) ->
+    Spec.Solve.nonsingular (fit_inv_arg RO p data) p.
+Proof. exact toeplitz_pd_nonsingular. Qed.
+
+(** ... and, for orders 1 and 2, by a nonzero variance alone *)
+Theorem C13_toeplitz_nonsingular_order_1_2 :
+  forall data : list R, acov data 0 <> 0 ->
+    Spec.Solve.nonsingular (fit_inv_arg RO 1 data) 1 /\ Spec.Solve.nonsingular (fit_inv_arg RO 2 data) 2.
+Proof. intros data Hv. split; [apply toeplitz1_nonsingular | apply toeplitz2_nonsingular]; exact Hv. Qed.
+
+(** order 1, complete and composed: every series with nonzero variance is fitted, the coefficient is the
+    lag-1 autocorrelation, strictly inside (-1, 1), and the forecasts converge to the series mean *)
+Theorem C13_ar1_fit_forecasts_converge_composed :
+  forall data : list R,
+    acov data 0 <> 0 ->
+    exists phi, ar_new_fit RO (slice_invert RO) 1 data = Some ([phi], smean data) /\
+      phi = acorr data 1 /\ Rabs phi < 1 /\
+      forall eps, 0 < eps -> exists N, forall h k f,
+        (N <= k < h)%nat -> predict RO [phi] (smean data) data h = Some f -> Rabs (nth k f 0 - smean data) < eps.
+Proof. exact ar1_fit_forecasts_converge_composed. Qed.
+
+(** the condition is satisfiable on a non-trivial instance, and the composed order-2 fit returns *)
+Theorem C13_example_composed :
+  Spec.Solve.nonsingular (fit_inv_arg RO 2 [0; 1; 3]) 2 /\
+  exists coeffs, ar_new_fit RO (slice_invert RO) 2 [0; 1; 3] = Some (coeffs, smean [0; 1; 3]) /\ length coeffs = 2%nat.
+Proof. exact (conj toeplitz_nonsingular_instance fit_composed_instance). Qed.
